@@ -27,6 +27,10 @@ structure Cfg where
   bp : BitVec 64
   B : Nat
   D : Nat
+  /-- a region of memory the function must not touch (e.g. everything at or above `%rbp`: the saved `%rbp`, the return
+      address, the caller's frame), and what it holds -/
+  keep : BitVec 64 → Prop
+  mem0 : BitVec 64 → BitVec 8
 
 structure Cfg.OK (g : Cfg) : Prop where
   nodup : (defs g.q).Nodup
@@ -34,24 +38,32 @@ structure Cfg.OK (g : Cfg) : Prop where
   lay : Lay g.tys g.off g.toff g.K g.B g.bp
   hsp : 8 * g.D ≤ g.sp.toNat
   hB : g.sp.toNat ≤ g.B
+  keep_ok : ∀ a, g.keep a → g.sp.toNat ≤ a.toNat ∧ (∀ W, ¬ inVar g.tys g.off g.bp W a) ∧ ¬ inTmp g.toff g.bp 0 g.K a
 
 /-- the machine state holds the store `σ` in the function's frame -/
 def MInv (g : Cfg) (σ : Env) (m : State) : Prop :=
-  σ.tys = g.tys ∧ m.get .rsp = g.sp ∧ m.get .rbp = g.bp ∧ Holds g.off σ m
+  σ.tys = g.tys ∧ m.get .rsp = g.sp ∧ m.get .rbp = g.bp ∧ Holds g.off σ m ∧ ∀ a, g.keep a → m.mem a = g.mem0 a
 
 theorem MInv.same {g : Cfg} {σ : Env} {m m' : State} (h : MInv g σ m) (hs : Same m m') : MInv g σ m' :=
-  ⟨h.1, hs.rsp.trans h.2.1, hs.rbp.trans h.2.2.1, h.2.2.2.same hs⟩
+  ⟨h.1, hs.rsp.trans h.2.1, hs.rbp.trans h.2.2.1, h.2.2.2.1.same hs, fun a ha => by rw [hs.mem]; exact h.2.2.2.2 a ha⟩
 
 /-- **an expression hole**: C01's `value_j` wherever the code of the expression sits in the function -/
 theorem hole (g : Cfg) (ok : g.OK) {e : E} {σ σ' : Env} {t : ITy} {code : List JI} {v : Int} {k0 k1 c0 c1 pos : Nat} {m : State}
     (hc : compileJ g.tys g.off g.toff k0 c0 e = some (t, code, k1, c1)) (hv : evalE σ e = some (v, σ'))
     (hn : noConflict e = true) (hK : k1 ≤ g.K) (hd : depthJ e ≤ g.D) (hat : At g.q pos code) (hm : MInv g σ m) :
     ∃ m', Reach g.q (pos, m) (pos + code.length, m') ∧ MInv g σ' m' ∧ Represents t (m'.get .rax) v := by
-  obtain ⟨hσ, hsp, hbp, hH⟩ := hm
+  obtain ⟨hσ, hsp, hbp, hH, hkeep⟩ := hm
+  have hk0 := (compileJ_facts g.tys g.off g.toff e k0 c0 t code k1 c1 hc).k
   obtain ⟨hty, hE⟩ := value_j (fun _ => True) g.off g.toff g.K e σ t code v σ' k0 k1 c0 c1 (by rw [hσ]; exact hc) hv hn hK
   obtain ⟨m', hrun, hrep, hH', hu⟩ := hE m g.D g.B trivial (by rw [hσ, hbp]; exact ok.lay) hd (by rw [hsp]; exact ok.hsp)
     (by rw [hsp]; exact ok.hB) hH
-  exact ⟨m', reach_of_exec (hrun g.q pos hat ok.nodup), ⟨hty.trans hσ, hu.rsp.trans hsp, hu.rbp.trans hbp, hH'⟩, hrep⟩
+  refine ⟨m', reach_of_exec (hrun g.q pos hat ok.nodup), ⟨hty.trans hσ, hu.rsp.trans hsp, hu.rbp.trans hbp, hH', ?_⟩, hrep⟩
+  intro a ha
+  obtain ⟨h1, h2, h3⟩ := ok.keep_ok a ha
+  rw [← hkeep a ha]
+  refine hu.mem a (by rw [hsp]; exact h1) (by rw [hσ, hbp]; exact h2 _) ?_
+  rw [hbp]
+  exact fun hh => h3 (inTmp_mono hh (Nat.zero_le _) hK)
 
 /-- the optional third clause of a `for` -/
 theorem holeOpt (g : Cfg) (ok : g.OK) {oe : Option E} {σ σ' : Env} {code : List JI} {k0 k1 c0 c1 pos : Nat} {m : State}
@@ -158,7 +170,7 @@ theorem compileF_k (tys : List ITy) (off toff : Nat → Int) (R : ITy) (s : FStm
     intro ctx k0 c0 u0 code k1 c1 u1 h
     simp only [compileF, Option.map_eq_some_iff, Prod.mk.injEq] at h
     obtain ⟨_, _, _, rfl, _, _⟩ := h; exact Nat.le_refl _
-  | case_ v s ih =>
+  | case_ lo hi s ih =>
     intro ctx k0 c0 u0 code k1 c1 u1 h
     simp only [compileF] at h
     split at h
